@@ -48,7 +48,7 @@ func main() {
 		"(interleave) one directed two-appender schedule where appender A is parked inside its page store until B has published k messages; " +
 		"(crash) one image of the queue directory taken after an individual store (payload bytes, index fields, appended-sequence) of an append. " +
 		"Non-trivial = stress/interleave run in which a Put was called while another appender was inside its page store (overlap observed at the page wrapper), " +
-		"or an image strictly inside an append; distinct by (kind, index, image hash).")
+		"or an image strictly inside an append, or a reopen placed at a page boundary; distinct by (kind, index, image hash).")
 	c.Assume("process-kill fault model: dirty MAP_SHARED pages survive; torn 8-byte stores are not modelled")
 	c.Assume("wall-clock is used only by the workload driver to give a parked appender up (never by the oracle)")
 	var jobs []job
@@ -64,6 +64,9 @@ func main() {
 	nCrash := c.Pick(8, 160)
 	for i := 0; i < nCrash; i++ {
 		jobs = append(jobs, job{"crash", i, false})
+	}
+	for i := 0; i < 6; i++ { // close/reopen exactly at index- and data-page boundaries
+		jobs = append(jobs, job{"boundary", i, false})
 	}
 	if !c.Quick() {
 		jobs = append(jobs, job{"indexroll", 0, false})
